@@ -289,6 +289,7 @@ def run(ctx):
                                      "push returned QUEUED or a worker was told EMPTY in the implementation trace"})
         if not ok or ctx.failures:
             search(ctx, exe)
+    core.init_contract(ctx, ["work_queue"])  # rt/h_init.c: real init on dirty memory
     core.finish(ctx, extra_assumptions=ASSUME)
 
 
@@ -322,6 +323,8 @@ def corpus(ctx):
 
 
 def replay(ctx, payload):
+    if payload.get("harness") == "h_init":
+        return core.replay_init(ctx, payload)
     exe = build(ctx)
     c = payload.get("case")
     if not exe or not c:
